@@ -35,6 +35,9 @@ def strand_cases(draw, tier):
         spec = {"user": draw(gens.user_filter_cfgs(k))}
     max_len = 48 if tier == "quick" else 200
     msgs = draw(st.lists(gens.messages(max_len, min_len=1), min_size=1, max_size=3 if tier == "quick" else 6))
+    if draw(st.sampled_from([True, False, False])):
+        # one long message: strands of dozens of windows (the whole-sequence check then sees 24+ windows)
+        msgs = msgs[:2] + [draw(gens.messages(420 if tier == "quick" else 900, min_len=260))]
     return dict(spec, k=k, t=draw(st.sampled_from([1, 1, 1, 2, 2, 2, 3, 4])), msgs=msgs,
                 table=draw(gens.tables(k)), pick=draw(st.integers(0, 2 ** 32 - 1)), fast=draw(st.booleans()))
 
@@ -68,8 +71,10 @@ def evaluate_strands(case):
     if len(starts) > 64:
         starts = random.Random(case["pick"]).sample(starts, 64)
     nontrivial = False
-    for start in starts:
+    for rank, start in enumerate(starts):
         for i, bits in enumerate(case["msgs"]):
+            if len(bits) > 250 and rank >= 6:
+                continue  # the long message is encoded from six start vertices only
             fast = case["fast"] and c04.fast_ok(rows, k, start)
             table = case["table"] if (i + start) % 2 == 0 else None
             ccase = {"graph": {"k": k, "rows": rows, "start": start}, "bits": bits, "fast": fast, "table": table,
@@ -84,7 +89,7 @@ def evaluate_strands(case):
                        table is not None, fast)
             for pos in range(len(full) - k + 1):
                 window = full[pos: pos + k]
-                verdict = lib_call(own, window)
+                verdict = lib_call(own, window, _thread=False)
                 if verdict is not True:
                     return bad("window %r (position %d of start_kmer+strand %r) fails the filter's own check: %r; %s"
                                % (window, pos, full[:80], verdict, where), labels)
@@ -103,6 +108,8 @@ def evaluate_strands(case):
                             return bad("whole-sequence check of the %s %r fails (%r) for a window-decidable "
                                        "configuration; %s" % (name, text[:80], verdict, where), labels)
                 labels.append("whole_sequence_checked")
+                if len(strand) >= 24 * k:
+                    labels.append("whole_sequence_windows>=24")
             if len(strand) >= k and rejected_some and (trimmed or mixed):
                 nontrivial = True
             labels.append("fast" if fast else "normal")
@@ -188,7 +195,7 @@ def evaluate_ctor_drawn(case):
 
 SUBCHECKS = [
     SubCheck("strands_obey_filter", evaluate_strands, strategy=strand_cases, examples=(2500, 15000), shards=(16, 16),
-             floors={"whole_sequence_checked": 150, "src:local": 200, "src:user:forbidden": 40, "src:user:set": 40,
+             floors={"whole_sequence_checked": 150, "whole_sequence_windows>=24": 120, "src:local": 200, "src:user:forbidden": 40, "src:user:set": 40,
                      "trimmed": 40, "mixed_out_degrees": 100, "fast": 60, "table": 150}, rule=RULE, timeout=180.0),
     SubCheck("constructor", evaluate_ctor, enum=(lambda tier: len(CTOR), lambda i, tier: CTOR[i]), shards=(4, 4),
              exhaustive_space="all combinations of observed length 1..8, run limit none/0..k+2 and motif-length "
